@@ -148,9 +148,28 @@ def contracts(rep, regs, model):
     chain_has = chain_has_in(R['eu/nace'])
     per_entry(rep, R['eu/nace'], 'REG.consumer-key', lambda e: chain_has(e, 'label'), "no label= on this entry or its ancestors: get_label() raises KeyError")
     # cz/banks: 'bank' not in _info(bank) -> InvalidComponent: entries without bank= are unusable
-    anchor(rep, 'stdnum/cz/bankaccount.py', 'validate', ["'bank' not in _info(bank)"], 'cz/banks: entry must carry bank=')
+    # the key is read from the gate itself: `'K' not in _info(bank)`, `not _info(bank).get('K')`, `_info(bank).get('K') is None` ...
+    czfn = func(load_py('stdnum/cz/bankaccount.py'), 'validate', 'stdnum/cz/bankaccount.py')
+    czkeys = []
+    for n in ast.walk(czfn):
+        if isinstance(n, ast.If) and any(isinstance(b, ast.Raise) for b in n.body) and '_info(' in src(n.test):
+            for t in ast.walk(n.test):
+                if isinstance(t, ast.Compare) and len(t.ops) == 1 and isinstance(t.ops[0], ast.NotIn) and isinstance(t.left, ast.Constant) \
+                        and isinstance(t.left.value, str) and '_info(' in src(t.comparators[0]):
+                    czkeys.append((t.left.value, n))
+                elif isinstance(t, ast.Call) and isinstance(t.func, ast.Attribute) and t.func.attr == 'get' and '_info(' in src(t.func.value) \
+                        and t.args and isinstance(t.args[0], ast.Constant) and isinstance(t.args[0].value, str):
+                    czkeys.append((t.args[0].value, n))
+                elif isinstance(t, ast.Subscript) and '_info(' in src(t.value) and isinstance(t.slice, ast.Constant) and isinstance(t.slice.value, str):
+                    czkeys.append((t.slice.value, n))
+    if not czkeys:
+        anchor(rep, 'stdnum/cz/bankaccount.py', 'validate', ["'bank' not in _info(bank)"], 'cz/banks: entry must carry bank=')
     chain_has = chain_has_in(R['cz/banks'])
-    per_entry(rep, R['cz/banks'], 'REG.consumer-key', lambda e: chain_has(e, 'bank'), 'no bank= : every account of this bank code is rejected')
+    for czkey, czif in czkeys or [('bank', None)]:
+        if czif is not None:
+            rep.ok('REG.anchor', 'stdnum/cz/bankaccount.py:%d validate' % czif.lineno, '%s  (cz/banks: entry must carry %s=)' % (src(czif.test), czkey))
+        per_entry(rep, R['cz/banks'], 'REG.consumer-key', lambda e: chain_has(e, czkey),
+                  'no %s= : cz.bankaccount.validate() (`if %s`) rejects every account of this registered bank code' % (czkey, src(czif.test) if czif is not None else ''))
     # nz/banks: 'bank' not in i or 'branch' not in i -> InvalidComponent
     fn = anchor(rep, 'stdnum/nz/bankaccount.py', 'validate', ["'bank' not in i", "'branch' not in i"], 'nz/banks: bank= and branch= required')
     chain_has = chain_has_in(R['nz/banks'])
@@ -438,6 +457,49 @@ def consumer_tables(rep, regs):
         raise AnalysisError('only %d registry consumer modules found (expected at least 10)' % scanned)
 
 
+def _utf8(node):
+    return isinstance(node, ast.Constant) and isinstance(node.value, str) and node.value.lower().replace('_', '-') in ('utf-8', 'utf8', 'utf-8-sig')
+
+
+def encoding_rule(rep):
+    """REG.encoding: the registry files are UTF-8 (ReaderModel reads them so) and many entries are not ASCII; numdb must decode them as
+    UTF-8 whatever the locale of the process: every stream it opens is either binary and decoded by an explicit UTF-8 reader, or text
+    with encoding='utf-8'."""
+    rel_ = 'stdnum/numdb.py'
+    tree = load_py(rel_)
+    opens = []
+    decoders = []
+    for n in ast.walk(tree):
+        if not isinstance(n, ast.Call):
+            continue
+        name = n.func.attr if isinstance(n.func, ast.Attribute) else (n.func.id if isinstance(n.func, ast.Name) else '')
+        kw = {k.arg: k.value for k in n.keywords if k.arg}
+        if name in ('open', 'open_text', 'open_binary', 'resource_stream', 'read_text', 'read_binary', 'TextIOWrapper'):
+            modes = [a.value for a in list(n.args) + [kw[k] for k in kw if k == 'mode'] if isinstance(a, ast.Constant) and isinstance(a.value, str)
+                     and a.value and set(a.value) <= set('rwabtx+')]
+            binary = name in ('resource_stream', 'open_binary', 'read_binary') or any('b' in m_ for m_ in modes)
+            if name == 'TextIOWrapper':
+                binary = False
+            opens.append((n, name, binary, _utf8(kw.get('encoding')) or (name == 'TextIOWrapper' and len(n.args) > 1 and _utf8(n.args[1]))))
+        if name in ('getreader', 'decode', 'getdecoder', 'getincrementaldecoder', 'lookup') and n.args and _utf8(n.args[0]):
+            decoders.append(n)
+        if name == 'decode' and _utf8(kw.get('encoding')):
+            decoders.append(n)
+    if not opens:
+        raise AnalysisError('numdb.py opens no registry stream that the encoding rule recognises')
+    for n, name, binary, enc in opens:
+        if binary:
+            rep.check(bool(decoders), 'REG.encoding', rel_, '-', src(n), n.lineno,
+                      'numdb opens the registry as bytes here but nothing in numdb.py decodes it with an explicit UTF-8 reader: the non-ASCII entries '
+                      'are not returned as written', what='binary stream, decoded by %s' % (src(decoders[0]) if decoders else '-'))
+        else:
+            rep.check(enc, 'REG.encoding', rel_, '-', src(n), n.lineno,
+                      'numdb opens the registry as text without encoding=\'utf-8\': the files are UTF-8 and are then decoded with the locale\'s '
+                      'encoding, so under a non-UTF-8 locale the registries with non-ASCII entries fail to load or return other text',
+                      what='text stream with encoding utf-8')
+    return len(opens)
+
+
 KNOWN_REGISTRIES = ['at/fa', 'at/postleitzahl', 'be/banks', 'cfi', 'cn/loc', 'cz/banks', 'eu/nace', 'gs1_ai', 'iban', 'id/loc', 'imsi',
                     'isbn', 'isil', 'my/bp', 'nz/banks', 'oui', 'us/ein']
 
@@ -484,6 +546,7 @@ def check(tier):
             rep.undecide('REG.consumer', regs[n].rel, 'registry without a consumer contract in sa/props/c11.py')
     contracts(rep, regs, model)
     consumer_tables(rep, regs)
+    rep.unit("streams opened by numdb", encoding_rule(rep))
     rep.expect_at_least('REG.line-wellformed', 46000, 'registry lines')
     rep.expect_at_least('REG.consumer-key', 30000, 'consumer key obligations')
     rep.not_decided = ['agreement of the registry contents with the external sources (ISO, IEEE, Wikipedia, ...)',
